@@ -12,7 +12,7 @@ RULE = ('real threads under a deterministic line-granularity scheduler (sys.sett
         'thread B parses on the same Licensing to completion and thread C constructs another Licensing and parses; then A resumes. '
         'The subsequent parse: on a Licensing that has already parsed one text, A parses another text (or the same) and is preempted '
         'before every k-th line while B parses the previous (or another) text. Construction meanwhile: A is preempted before every k-th '
-        'line of its first parse while another thread constructs a Licensing over 1200 keys never seen before; the simple tokenizer (tokenize / parse / combine_expressions with simple=True) from two threads with every single preemption; queries (key listings, validation of keys, dedup, is_equivalent) on nested expression objects (depths 12, 120, 330, 600) from two threads with two preemption points (counted from the first and from the last line of each call); the index loaders (build_licensing, build_spdx_licensing over a small index) preempted before their k-th line while another thread parses a text with words that are not valid keys on a warm Licensing. '
+        'line of its first parse while another thread constructs a Licensing over 1200 keys never seen before; the simple tokenizer (tokenize / parse / combine_expressions with simple=True) from two threads with every single preemption; queries (key listings, validation of keys, dedup, is_equivalent) on nested expression objects (depths 12, 120, 600) from two threads with two preemption points (counted from the first and from the last line of each call); the index loaders (build_licensing, build_spdx_licensing over a small index) preempted before their k-th line while another thread parses a text with words that are not valid keys on a warm Licensing. '
         'Spec: every result equals the result of the call run alone. Correspondence: the sequence of protocol steps the threads '
         'took (read shared / allocate / add / make_automaton / publish / use) is replayed on the Lean protocol model and the '
         'tokenizer each thread used (entries, finalised) must be the one the model says. non-trivial = the preemption falls inside '
@@ -206,7 +206,9 @@ class Prop(BaseProp):
                            impl=got, model=want, tags=['simple'])
         return Verdict('ok', case, impl=got[0][0], nontrivial=True, tags=['simple'])
 
-    DEEP = [12, 120, 330, 600]     # nesting depths of the expression objects of the `deep` scenario (the last: more than the interpreter walks by default)
+    # nesting depths of the expression objects of the `deep` scenario: well inside what the interpreter walks by default, and well
+    # beyond it (nothing near the limit: there an equivalent rewrite that adds a frame per level changes the outcome)
+    DEEP = [12, 120, 600]
 
     @staticmethod
     def deep_text(n, tail):
